@@ -15,7 +15,11 @@ NUMPY_VIEW_MAKERS = {"asarray", "asanyarray", "ascontiguousarray", "asfortranarr
 FRESH_CALLS = {"copy", "deepcopy", "array", "zeros", "ones", "empty", "DataFrame", "dict", "list", "set", "tuple",
                "read_table", "read_csv", "linspace", "arange", "copy.copy", "copy.deepcopy"}
 AMBIENT = ("time.", "datetime.", "random.", "numpy.random.", "uuid.", "secrets.", "os.environ", "os.getcwd", "os.getpid",
-           "os.urandom", "socket.", "getpass.", "platform.", "tempfile.")
+           "os.urandom", "socket.", "getpass.", "platform.", "tempfile.",
+           # process-wide option state of libraries: set once, it changes what every later call in the process produces (the scoped forms -
+           # pandas.option_context, numpy.errstate, numpy.printoptions, warnings.catch_warnings, decimal.localcontext - restore it)
+           "pandas.set_option", "pandas.reset_option", "pandas.options.", "numpy.set_printoptions", "numpy.seterr", "numpy.seterrcall", "warnings.simplefilter",
+           "warnings.filterwarnings", "locale.setlocale", "os.chdir", "os.umask", "sys.setrecursionlimit", "matplotlib.rcParams", "matplotlib.use", "decimal.setcontext")
 UNORDERED_CALLS = {"set", "frozenset", "glob", "glob.glob", "glob.iglob", "os.listdir", "os.scandir", "os.walk"}
 
 
@@ -252,6 +256,30 @@ def class_state_writes(mod: Mod):
                     if tgt.attr in rebound and q.endswith("__init__"):
                         continue
                     out.append((q, st, f"class-level mutable attribute {cname}.{tgt.attr}"))
+    # an attribute of the CLASS assigned from inside a method - type(self).x = ..., self.__class__.x = ..., cls.x = ..., ClassName.x = ... -
+    # is state shared by every instance (and every later calculation in the process)
+    for q, f in mod.funcs.items():
+        if "." not in q:
+            continue
+        cname = q.split(".")[0]
+        is_classmethod_like = bool(f.args.args) and f.args.args[0].arg == "cls"
+        for st in ast.walk(f):
+            targets = st.targets if isinstance(st, ast.Assign) else ([st.target] if isinstance(st, (ast.AugAssign, ast.AnnAssign)) and getattr(st, "value", None) is not None else [])
+            for t in targets:
+                if not isinstance(t, ast.Attribute):
+                    continue
+                b = t.value
+                through = None
+                if isinstance(b, ast.Call) and isinstance(b.func, ast.Name) and b.func.id == "type" and len(b.args) == 1 and isinstance(b.args[0], ast.Name) and b.args[0].id == "self":
+                    through = "type(self)"
+                elif isinstance(b, ast.Attribute) and b.attr == "__class__" and isinstance(b.value, ast.Name) and b.value.id == "self":
+                    through = "self.__class__"
+                elif isinstance(b, ast.Name) and b.id == "cls" and is_classmethod_like:
+                    through = "cls"
+                elif isinstance(b, ast.Name) and b.id == cname and cname in mod.classes:
+                    through = cname
+                if through:
+                    out.append((q, st, f"class attribute {cname}.{t.attr} assigned through {through}"))
     for q, f in mod.funcs.items():
         params = [a.arg for a in f.args.args]
         defaults = dict(zip(reversed(params), reversed(f.args.defaults)))
